@@ -2324,6 +2324,9 @@ func parseOptions(index *int, opts *Options, allArgs []string) error {
 		if err != nil {
 			return 0, err
 		}
+		if n < 0 {
+			return 0, errors.New("not a non-negative integer: " + str)
+		}
 		return n, nil
 	}
 
